@@ -39,8 +39,9 @@ def jobs(tier):
             out.append({"name": "%s-%s-min" % (algo, s), "algo": algo, "spec": spec(s, "min", domain_kind="own"),
                         "fixed": True, "steps": steps})
         if tier == "thorough":
-            out.append({"name": "%s-pair-max" % algo, "algo": algo, "spec": spec("pair", "max", domain_kind="own"),
-                        "fixed": True, "steps": 60})
+            if algo != "dba":        # DBA rejects a max objective at construction
+                out.append({"name": "%s-pair-max" % algo, "algo": algo, "spec": spec("pair", "max", domain_kind="own"),
+                            "fixed": True, "steps": 60})
             out.append({"name": "%s-pair-min-allsched" % algo, "algo": algo, "spec": spec("pair", "min", domain_kind="own"),
                         "fixed": False, "steps": 30})
             if "chain3" not in structs:
